@@ -62,7 +62,7 @@ prop("C03", "proof", "Lean theorems on Parse accounting (n, ErrEmptyBuffer, NoTr
 prop("C04", "proof", "refinement of the DecoderBuffer model to an append-only byte log (all growth functions) incl. the doubling copy; model tied by differential scripts that compare len, R, Off, BufferSize and cap after every operation",
      "Lean 4 refinement proof + differential correspondence",
      [S("d-buf", 300, 6000, ["d.wblk.ok", "d.wblk.shrunk", "d.match.overlap", "d.match.doubling2", "d.read"]),
-      S("dd", 200, 4000, ["d.wblk.ok", "dd.flush.ok"], hang="10s"), S("d-exhaustive", 11311, 135727, [])],
+      S("dd", 200, 4000, ["d.wblk.ok", "dd.flush.ok"], hang="10s"), S("d-exhaustive", 11311, 135727, []), S("d-large", 2, 60, ["d.large", "d.wblk.ok"], hang="60s")],
      "trusted: as C01; Go runtime slice growth is a parameter of the theorems and transcribed (self-tested against append) for execution", GEN_RULE, "§8 C04")
 prop("C05", "proof", "rejection conditions and atomicity of WriteMatch/WriteBlock as Lean theorems over the full uint32 range; malformed-stream generator; caller's block compared before/after",
      "Lean 4 proof + differential correspondence with malformed streams",
@@ -70,15 +70,15 @@ prop("C05", "proof", "rejection conditions and atomicity of WriteMatch/WriteBloc
      "as C04", GEN_RULE, "§8 C05")
 prop("C06", "proof", "the Decoder retry loops are total Lean functions whose spin branch (hang marker) is proved unreachable; harness watchdog reports hangs of the real code",
      "Lean 4 termination proof (unreachable hang marker) + watchdog differential runs",
-     [S("dd", 300, 5000, ["dd.write.oversize", "d.wblk.ok"], hang="10s"), S("dd-faults", 200, 3000, ["dd.flush.err"], hang="10s")],
+     [S("dd", 300, 5000, ["dd.write.oversize", "d.wblk.ok"], hang="10s"), S("dd-faults", 200, 3000, ["dd.flush.err"], hang="10s"), S("d-large", 2, 60, ["d.large", "d.wblk.ok"], hang="60s")],
      "assumes the destination writer returns", GEN_RULE, "§8 C06")
 prop("C07", "proof", "composition of the parser-side well-formedness and decoder acceptance theorems; partial: sequences with LitLen+MatchLen > BufferSize-WindowSize are refused (known finding); parser blocks are piped into Decoders with the same window",
      "Lean 4 proof (partial) + parser→decoder pipeline correspondence",
-     [S("c07", 300, 5000, ["c07.roundtrip.ok", "c07.block"]), S("p-large", 2, 60, ["p.parse.matches", "p.match.offset>=64K"], hang="120s")],
+     [S("c07", 300, 5000, ["c07.roundtrip.ok", "c07.block"]), S("d-large", 2, 60, ["d.large", "d.wblk.ok"], hang="60s"), S("p-large", 2, 60, ["p.parse.matches", "p.match.offset>=64K"], hang="120s")],
      "known finding: errMatchLen for g > BufferSize-WindowSize", GEN_RULE, "§8 C07")
 prop("C08", "proof", "Wrap as a derived machine of the parser model; ReadFrom chunking independence and no-panic proved on PBuf; reader scripts with short reads, EOF with data and errors",
      "Lean 4 proof on the buffer model + differential correspondence with scripted readers",
-     [S("p-wrap", 300, 5000, ["w.eof", "w.readererr", "w.shrunk"])],
+     [S("p-wrap", 300, 5000, ["w.eof", "w.readererr", "w.shrunk"]), S("p-bigbuf", 8, 200, ["p.bigbuf", "p.readfrom.full"])],
      "assumes readers never return (0, nil) forever", GEN_RULE, "§8 C08")
 prop("C09", "proof", "suffix.Sort is certified per input against the Lean specification saSpec (sorted permutation, proved unique); LCP (Kasai) and InvertSA are modelled exactly and proved correct in Lean",
      "Lean 4 proof (Kasai, InvertSA) + per-input certification of Sort against a verified specification",
@@ -117,7 +117,7 @@ prop("C16", "proof", "NewParser ⇔ Verify∘SetDefaults over Int fields; the bo
      "BufferSize ≤ MaxInt32 for GSAP/OSAP is a stated bound (D18)", GEN_RULE, "§8 C16")
 prop("C17", "proof", "n, k, l and Off exactness as part of the decoder refinement; scripts biased to a full buffer with already-read bytes",
      "Lean 4 refinement proof + differential correspondence",
-     [S("d-counts", 300, 5000, ["d.wblk.shrunk-after-read", "d.full"]), S("dd", 200, 3000, ["d.wblk.ok"], hang="10s")],
+     [S("d-counts", 300, 5000, ["d.wblk.shrunk-after-read", "d.full"]), S("dd", 200, 3000, ["d.wblk.ok"], hang="10s"), S("d-large", 2, 60, ["d.large", "d.wblk.ok"], hang="60s")],
      "as C04", GEN_RULE, "§8 C17")
 prop("C18", "proof", "writer scripts with every placement of short writes and errors; delivered-prefix invariant and retry theorem in Lean",
      "Lean 4 proof + differential correspondence with fault-injecting writers",
